@@ -574,11 +574,11 @@ func dependsOnValueDeep(v ssa.Value, target ssa.Value) bool {
 
 // checkThenInsertResult describes, for one map value of a function, how comma-ok lookups relate to stores.
 type checkThenInsertResult struct {
-	Map          ssa.Value
-	Lookups      int
-	Stores       int
-	StoreOnFound bool // some store into the map is reachable only when a lookup found the key (overwrites an entry)
-	ErrOnFound   bool // some return of a non-nil error is dominated by the "found" edge of a lookup
+	Map           ssa.Value
+	Lookups       int
+	Stores        int
+	StoreOnFound  bool // some store into the map is reachable only when a lookup found the key (overwrites an entry)
+	ErrOnFound    bool // some return of a non-nil error is dominated by the "found" edge of a lookup
 	StoreOnAbsent bool // some store is dominated by the "absent" edge of a lookup
 }
 
